@@ -360,9 +360,10 @@ pub fn reference_expand(p: &Prog) -> Result<Expansion, String> {
       Item::Row { mods, row, to_initial, letters, rep, absorbing } => {
         let rk = row_keys(*row);
         let chars: Vec<char> = letters.chars().collect();
-        if chars.len() > rk.len() {
+        if chars.iter().skip(rk.len()).any(|c| *c != ' ') {
           return Err(format!("row {} has {} keys but {} letters were given", ROW_NAMES[*row], rk.len(), chars.len()));
         }
+        let chars: Vec<char> = chars.into_iter().take(rk.len()).collect();
         let mut g = Vec::new();
         for combo in combinations(p, mods) {
           let from_mods = expand_trigger_mods(p, mods, &combo);
@@ -799,7 +800,8 @@ fn gen_reject(src: &mut Src, p: &Prog, base: &Value) -> Option<(String, Value)> 
       // over-long row
       let row = src.below(5);
       let n = row_keys(row).len() + 1 + src.below(2);
-      let letters: String = std::iter::repeat('x').take(n - 1).chain(std::iter::once(if src.chance(50) { ' ' } else { 'y' })).collect();
+      // the excess is a real letter: space padding beyond the row drops nothing and is left open
+      let letters: String = std::iter::repeat('x').take(n - 1).chain(std::iter::once('y')).collect();
       arr.push(json!({"from": {"row": ROW_NAMES[row]}, "to": {"letters": letters}}));
       Some(("over-long-row".into(), v))
     }
